@@ -140,6 +140,15 @@ Theorem multiuse_source_panic_before_repair_refuted :
             /\ forall a, match a with MultiUse.ACons i => i < 2 -> MultiUse.mstep 2 false s a = None | _ => MultiUse.mstep 2 false s a = None end.
 Proof. exact MultiUseProofs.multiuse_source_panic_unrecovered. Qed.
 
+(* merge left by a panic on the evaluating goroutine (less function, closure of the consuming stage, stack guard): the
+   flag that ends its reader goroutines is set by a DEFERRED store, i.e. on every exit path - within two steps both
+   readers have returned, however long their operands are; with a plain store behind the call a panic skips it *)
+Theorem merge_left_by_panic_quiesces : forall e remaining, merge_reader_steps true e remaining <= 2.
+Proof. exact TokChanProofs.merge_left_quiesces. Qed.
+
+Theorem merge_plain_store_refuted : forall bound, exists remaining, merge_reader_steps false MPanics remaining > bound.
+Proof. exact TokChanProofs.merge_plain_store_unbounded. Qed.
+
 (* non-vacuity: the witness input and the prediction of the model for it, with and without the drain *)
 Example C12_nonvacuous :
   tokenize TokSysProofs.leak_cfg TokSysProofs.leak_input = [mkTok tNumber [49%N] 1; mkTok tClose [41%N] 1; mkTok tClose [41%N] 1]
@@ -169,6 +178,8 @@ Print Assumptions stopped_stage_never_quiet.
 Print Assumptions par_stage_quiesces_partial.
 Print Assumptions source_panic_strands_none.
 Print Assumptions source_panic_before_repair_refuted.
+Print Assumptions merge_left_by_panic_quiesces.
+Print Assumptions merge_plain_store_refuted.
 Print Assumptions multiuse_quiesces.
 Print Assumptions multiuse_source_panic_strands_none.
 Print Assumptions multiuse_source_panic_before_repair_refuted.
